@@ -1,6 +1,7 @@
 package harness
 
 import (
+	"github.com/wmnsk/go-pfcp/message"
 	"google.golang.org/grpc/codes"
 	"fmt"
 	"net"
@@ -196,6 +197,81 @@ func scenarioC14(r *Run) {
 			}
 			if !found {
 				r.Violate("C14", "marker-to-wrong-tunnel", "end marker addressed to %v TEID %d; the updated FARs' old tunnels were %v", dst, teid, exp)
+			}
+		}
+	}
+	// two associations hand over at the same instant (datapath calls of different
+	// length, one of them slow): each flagged FAR gets exactly one marker, to its own
+	// old tunnel, whatever the other association's handler does meanwhile
+	if enabled && len(r.Violations) == 0 && r.AgentAlive() && r.Ch.Choose(3, "two-associations") == 1 {
+		q := r.AddPeer()
+		if q.Associate() == nil {
+			r.CheckNoPanics("C14")
+			return
+		}
+		sq := g.Session(q, SessShape{NQER: r.Ch.Choose(2, "nq-b")})
+		g.nextTEID++
+		*sq.FAR(2) = FARSpec{ID: 2, Action: ActFORW, DstIface: IfAccess, HasFwd: true, HasOHC: true, TEID: g.nextTEID, PeerIP: g.gnbs[2]}
+		if res := q.Establish(sq); !res.Accepted {
+			r.CheckNoPanics("C14")
+			return
+		}
+		sa := sessions[0]
+		oldA, oldB := *sa.FAR(3), *sq.FAR(2)
+		if !oldA.HasOHC {
+			r.CheckNoPanics("C14")
+			return
+		}
+		g.nextTEID += 2
+		nfA := &FARSpec{ID: 3, Action: ActFORW, DstIface: IfAccess, HasFwd: true, HasOHC: true, TEID: g.nextTEID - 1, PeerIP: g.gnbs[0], EndMarker: true}
+		nfB := &FARSpec{ID: 2, Action: ActFORW, DstIface: IfAccess, HasFwd: true, HasOHC: true, TEID: g.nextTEID, PeerIP: g.gnbs[1], EndMarker: true}
+		modA, modB := &ModSpec{Tag: "uF", UpdateFAR: []*FARSpec{nfA}}, &ModSpec{Tag: "uF", UpdateFAR: []*FARSpec{nfB}}
+		mA, mB := p.ModifyMsg(sa.UPSEID, modA), q.ModifyMsg(sq.UPSEID, modB)
+		r.W.Bess.Faults.LatJit = 2 * time.Millisecond
+		r.W.Bess.Faults.SlowNth = r.W.Bess.Calls + 1 + r.Ch.Choose(3, "slow-which")
+		r.W.Bess.Faults.SlowBy = time.Duration(3+r.Ch.Choose(20, "slow-ms")) * time.Millisecond
+		before := len(r.W.Net.UnixSink[sink])
+		p.SendMsg(mA)
+		if off := time.Duration(r.Ch.Choose(300, "b-off-us")) * time.Microsecond; off > 0 {
+			r.Sim.RunFor(off)
+		}
+		q.SendMsg(mB)
+		r.Sim.RunUntil(func() bool {
+			return p.FindResponse(message.MsgTypeSessionModificationResponse, mA.Sequence()) != nil && q.FindResponse(message.MsgTypeSessionModificationResponse, mB.Sequence()) != nil
+		}, r.Sim.NowNS()+int64(5*time.Second))
+		r.W.Bess.Faults.SlowNth = 0
+		r.Sim.RunFor(50 * time.Millisecond)
+		ra, rb := p.FindResponse(message.MsgTypeSessionModificationResponse, mA.Sequence()), q.FindResponse(message.MsgTypeSessionModificationResponse, mB.Sequence())
+		accepted := func(x *RxMsg) bool {
+			if x == nil {
+				return false
+			}
+			x.Used = true
+			c, _ := CauseOf(x.Msg)
+			return c == ie.CauseRequestAccepted
+		}
+		if accepted(ra) && accepted(rb) {
+			sa.ApplyMod(modA)
+			sq.ApplyMod(modB)
+			r.Accepted += 2
+			r.Skel("two-associations-hand-over")
+			r.Probe("hand-overs-of-two-associations-at-one-instant")
+			pkts := r.W.Net.UnixSink[sink][before:]
+			r.Op("two associations hand over at the same instant: %d end marker(s)", len(pkts))
+			gotA, gotB, other := 0, 0, 0
+			for _, pk := range pkts {
+				_, dst, _, _, teid, _, ok := decodeEndMarker(pk.Data)
+				switch {
+				case ok && dst.Equal(oldA.PeerIP) && teid == oldA.TEID:
+					gotA++
+				case ok && dst.Equal(oldB.PeerIP) && teid == oldB.TEID:
+					gotB++
+				default:
+					other++
+				}
+			}
+			if gotA != 1 || gotB != 1 || other != 0 {
+				r.Violate("C14", "marker-count:two-associations", "two associations updated one flagged FAR each at the same instant: %d marker(s) to the first one's old tunnel (%v TEID %d), %d to the second one's (%v TEID %d), %d elsewhere; exactly one each is due", gotA, oldA.PeerIP, oldA.TEID, gotB, oldB.PeerIP, oldB.TEID, other)
 			}
 		}
 	}
